@@ -491,31 +491,48 @@ def run(ck, facts):
 
     # ---------------- R4 nanobind param_decls agreement
     g = tool.fn("nanobind::ty::TyGenContext::gen_method_info")
-    pd = next((n for n in C.walk(C.fn_body(g)) if n.get("k") == "letst" and n["pat"].get("n") == "param_decls"), None)
+    # the site that builds the parameter declarations (a NamedType per parameter) -- in gen_method_info or in a helper it delegates to -- and the conditions on
+    # the way to it (early returns included, conditions held in locals resolved): for which TypeId variants can it be reached?
+    import flow as _flow
     ok = False
-    detail = "anchor `let param_decls` not found"
-    if pd:
-        cond = next((x for x in C.walk(pd["init"]) if x.get("k") == "if"), None)
-        if cond:
-            # matches!(id, TypeId::X) conjunct(s): compute the set of TypeId variants for which the condition can hold
-            tid = core.adt("hir::defs::TypeId", optional=True) or core.adt("TypeId")
-            variants = [v["name"] for v in tid["variants"]]
-            allowed = set(variants)
-            c = C.strip(cond["c"])
-            conj = []
-            st = [c]
-            while st:
-                x = C.strip(st.pop())
-                if x.get("k") == "bin" and x.get("op") == "And":
-                    st += [x["l"], x["r"]]
-                else:
-                    conj.append(x)
-            for x in conj:
-                neg = False
-                if x.get("k") == "un" and x.get("op") == "Not":
-                    neg = True
-                    x = C.strip(x["e"])
-                inner = x["inner"] if x.get("k") == "macro" and x.get("name") == "matches" else x
+    detail = "the construction of the parameter declarations (NamedType per method parameter) was not found"
+    tid = core.adt("hir::defs::TypeId", optional=True) or core.adt("TypeId")
+    variants = [v["name"] for v in tid["variants"]]
+    for h_ in C.fns_inl(tool, g, 2):
+        hdefs = dict(_flow.defs_of(h_))
+        site = None
+        for n_, st_ in C.with_conditions(C.fn_body(h_)):
+            if n_.get("k") == "struct" and (n_.get("adt") or "").endswith("NamedType") and any(
+                    y.get("k") == "field" and y.get("n") in ("params", "name") for fl_ in n_.get("fields") or [] for y in C.walk(fl_["e"])) and \
+                    any(k_ == "if" for k_, _, _ in st_):
+                site = (n_, st_)
+                break
+        if site is None:
+            continue
+        allowed = set(variants)
+
+        def known(c_, truth, depth=0):
+            """atoms of condition c_ whose truth value is fixed when c_ evaluates to `truth`"""
+            c_ = C.strip_keep_macro(c_)
+            if not isinstance(c_, dict) or depth > 6:
+                return []
+            if c_.get("k") == "un" and c_.get("op") == "Not":
+                return known(c_["e"], not truth, depth + 1)
+            if c_.get("k") == "local":
+                d_ = hdefs.get(c_.get("id"))
+                return known(d_[1], truth, depth + 1) if d_ and d_[0] == "expr" else []
+            if c_.get("k") == "bin" and c_.get("op") in ("And", "Or"):
+                if (c_["op"] == "And") == truth:
+                    return known(c_["l"], truth, depth + 1) + known(c_["r"], truth, depth + 1)
+                return []
+            if c_.get("k") == "block" and not c_.get("s") and c_.get("e") is not None:
+                return known(c_["e"], truth, depth + 1)
+            return [(c_, truth)]
+        for k_, c_, br_ in site[1]:
+            if k_ != "if":
+                continue
+            for atom, truth in known(c_, br_ == "t"):
+                inner = atom["inner"] if atom.get("k") == "macro" and atom.get("name") == "matches" else atom
                 inner = C.strip(inner)
                 if inner.get("k") == "match" and (inner.get("sadt") or "").endswith("TypeId"):
                     pos = set()
@@ -523,10 +540,11 @@ def run(ck, facts):
                         if C.strip(a["b"]).get("v") is True:
                             pv = a["pat"]
                             pos |= {q.get("v") for q in ([pv] if pv.get("k") != "or" else pv["alts"])}
-                    allowed &= (set(variants) - pos) if neg else pos
-            need = {v for v in variants if v != "Opaque"}
-            ok = allowed >= need
-            detail = "param_decls computed for TypeId::%s" % sorted(allowed)
+                    allowed &= pos if truth else (set(variants) - pos)
+        need = {v for v in variants if v != "Opaque"}
+        ok = allowed >= need
+        detail = "param_decls computed for TypeId::%s" % sorted(allowed)
+        break
     ck.expect(ok, "R4", "nanobind::gen_method_info/param_decls-kinds", detail, "%s; the struct/out-struct/enum templates (is_self_opaque = false) unwrap m.param_decls for constructors and static setters, so every non-opaque kind needs it" % detail, C.loc(g))
     for rel, want in (("nanobind/struct_impl.cpp.jinja", "false"), ("nanobind/enum_impl.cpp.jinja", "false"), ("nanobind/opaque_impl.cpp.jinja", "true")):
         import tmpl
